@@ -18,3 +18,9 @@ package ext
 //@ func Sprintf
 //@   trusted
 //@   ensures true
+
+//@ package math
+
+//@ func IsInf
+//@   trusted
+//@   ensures result <==> ((sign >= 0 && isPosInf64(f)) || (sign <= 0 && isNegInf64(f)))
